@@ -8,12 +8,12 @@ from vlib.common import ShardResult, rng_for
 PROPERTY = "C05"
 LEVEL = "exploration"
 RULE = (
-    "A history = a sequence (<= 12 quick / <= 20 thorough) of operations over a universe of 7 probe specs on a shared "
+    "A history = a sequence (<= 12 quick / <= 20 thorough) of operations over a universe of 8 probe specs on a shared "
     "family of 3 mutually calling functions: activate / deactivate a global probe (any order), enter / leave a "
     "with-probing block (normally or with an exception), enter / leave a raw autotool+BaseOverlay block, call the "
     "family on a random call tree, attempt an activation that must be refused (unknown variable, untoolable object, "
     "second selector bad).  Specs overlap on functions and variables: immediate, total, overridable-but-declining, "
-    "generic ($x), multi-selector.  After EVERY step the monitors check: each active probe's accumulated stream == "
+    "generic ($x), multi-selector, total with a subscriber that raises during delivery.  After EVERY step the monitors check: each active probe's accumulated stream == "
     "reference stream for the calls made while it was active (exactly-once), inactive probes received nothing more; "
     "per function instrument_count / capture counters == shadow computed from the active set, installed code object is "
     "the original iff no active probe selects the function (else the variant for exactly the shadow's capture set); "
@@ -48,6 +48,9 @@ def universe(rnd):
     specs.append(("total", [(["call", 0, ["a0"], [["call", 1, ["a1"], []]]], None, None)]))
     specs.append(("decline", [(["call", 1, ["a1"], []], [], "a1")]))
     specs.append(("multi", [(["call", 2, ["v"], []], [], "v"), (["call", 0, ["b0"], []], [], "b0")]))
+    # a total probe whose subscriber raises while its record is being delivered (at the exit of
+    # the outermost matched call): the exception must not disturb anything else
+    specs.append(("total-raising", [(["call", rnd.randrange(NF), ["v"], []], None, None)]))
     # two random ones
     for _ in range(2):
         sel = CT.rand_sel(rnd, NF, rnd.randint(0, 2))
@@ -98,6 +101,14 @@ class World:
         if kind == "decline":
             prb = probing(*texts, env=self.ns, overridable=True)
             prb.override(lambda d, out=out: (out.append(("imm", dict(d))), ABSENT)[1])
+        elif kind == "total-raising":
+            prb = probing(*texts, env=self.ns, raw=True)
+
+            def sub(d, out=out):
+                out.append(("total", {k: list(c.values) for k, c in d.items()}))
+                raise ValueError("subscriber failure")
+
+            prb.subscribe(sub)
         elif kind == "total":
             prb = probing(*texts, env=self.ns, raw=True)
             prb.subscribe(lambda d, out=out: out.append(("total", {k: list(c.values) for k, c in d.items()})))
@@ -215,9 +226,21 @@ class World:
                     for val, lst in exp.items():
                         for ev in lst:
                             evs.append((val, ("imm", ev)))
-            if len(e["sels"]) > 1 or e["kind"] != "total":
+            if len(e["sels"]) > 1 or e["kind"] not in ("total", "total-raising"):
                 evs.sort(key=lambda x: x[0])
+            e.setdefault("synced", len(e["expected"]))
             e["expected"].extend(ev for _, ev in evs)
+        if any(e["kind"] == "total-raising" for e in self.active):
+            # a subscriber that raises at an activation's exit aborts the delivery loop of that exit,
+            # so OTHER total probes closing at the same exit may lose that record: their streams are
+            # not asserted for this call (immediate probes and all state invariants still are)
+            for e in self.active:
+                if e["kind"] in ("total", "total-raising"):
+                    new_exp = canon(e["expected"][e.get("synced", 0):])
+                    new_got = canon(e["out"][e.get("synced", 0):])
+                    if all(g in new_exp for g in new_got):
+                        e["expected"] = list(e["out"])  # nothing spurious: accept what was delivered
+                    e["synced"] = len(e["expected"])
         return raised
 
 
@@ -311,7 +334,7 @@ def run_history(ns, specs, ops, res, case, known):
                     continue
                 deactivate(gl[op[1] % len(gl)])
             elif kind in ("enter", "oenter"):
-                if kind == "oenter" and (len(specs[op[1]][1]) > 1 or specs[op[1]][0] == "decline"):
+                if kind == "oenter" and (len(specs[op[1]][1]) > 1 or specs[op[1]][0] in ("decline", "total-raising")):
                     continue
                 e = w.make_probe(op[1]) if kind == "enter" else w.make_overlay(op[1])
                 e["mode"] = "with"
